@@ -318,9 +318,14 @@ func idsB(opts []optB) []int {
 // addComp adds the fake component of option type ty under key to g and returns the value the
 // node expects as input, which it takes from the entry of the input map named by its node path
 // (nil: a lambda, which takes the whole map).
-func addComp(ctx context.Context, g *compose.Graph[map[string]any, map[string]any], key, path string, ty int) (any, error) {
+func addComp(ctx context.Context, g nodeSink, key, path string, ty int) (any, error) {
 	o := []compose.GraphAddNodeOpt{compose.WithNodeName(path), compose.WithInputKey(path), compose.WithOutputKey(key)}
 	lo := []compose.GraphAddNodeOpt{compose.WithNodeName(path), compose.WithOutputKey(key)}
+	if g.isWorkflow() {
+		// a workflow node is fed through field mappings (wf.go), not through input / output keys
+		o = []compose.GraphAddNodeOpt{compose.WithNodeName(path)}
+		lo = o
+	}
 	switch ty {
 	case tyNone:
 		l := compose.InvokableLambda(func(ctx context.Context, in map[string]any) (string, error) {
